@@ -162,7 +162,7 @@ def aperture_table(rng, n_ap):
 
 def write_grid_v1(model_dir, names, band_names, band_wav, grid, errgrid=None, apertures=None,
                   aperture_dependent=False, logd_step=0.02, fmt='D', table_order=None,
-                  params=None, gz=False):
+                  params=None, gz=False, flux_unit='mJy'):
     """per-file package with harness-written convolved files (no SEDs needed)"""
     os.makedirs(os.path.join(model_dir, 'convolved'), exist_ok=True)
     pkg.write_conf(model_dir, aperture_dependent=aperture_dependent, logd_step=logd_step, version=1)
@@ -171,10 +171,11 @@ def write_grid_v1(model_dir, names, band_names, band_wav, grid, errgrid=None, ap
     pkg.write_parameters(model_dir, [names[i] for i in order],
                          {k: np.asarray(v)[order] for k, v in params.items()})
     errgrid = grid * 0.01 if errgrid is None else errgrid
+    scale_ = {'mJy': 1.0, 'Jy': 1e-3, 'uJy': 1e3}[flux_unit]       # the truth grid is in mJy; the file may store another unit
     for f, (bn, bw) in enumerate(zip(band_names, band_wav)):
         pkg.write_convolved_file(os.path.join(model_dir, 'convolved', bn + '.fits'),
                                  [names[i] for i in order], apertures,
-                                 grid[order, :, f], errgrid[order, :, f], bw, fmt=fmt, gz=gz)
+                                 grid[order, :, f] * scale_, errgrid[order, :, f] * scale_, bw, fmt=fmt, gz=gz, unit=flux_unit)
     return order
 
 
